@@ -307,7 +307,9 @@ pub fn generate_with_logs(plan: &Plan, core: &Rc<SimCore>, seed: u64, logs: bool
                         } else if let Some(p) = prev {
                             deps.push(p);
                         }
-                        let id = dag.add(Box::new(move || ev(Cucumber::scenario(f3, r3, s3, se.with_retries(retries)))), &deps);
+                        // (a struct literal on purpose: a `Runner` of the user's own may build its events
+                        // that way, and nothing in this harness should depend on `with_retries()`)
+                        let id = dag.add(Box::new(move || ev(Cucumber::scenario(f3, r3, s3, event::RetryableScenario { event: se, retries }))), &deps);
                         if let Some(p) = prev {
                             dag.nodes[p].as_mut().unwrap().next_in_chain = Some(id);
                         }
